@@ -51,14 +51,14 @@ def pick_header(rng):
 
 
 def one(rng):
-    ctor = rng.choice(["new", "new", "data", "string", "file", "empty"])
+    ctor = rng.choice(["new", "new", "data", "string", "file", "empty", "newch", "emptyc"])
     st = rng.choice([200, 200, 404, 204, 304, 100, 101, 500, 299, 999])
     special = False
     mismatch = False
     hs = []
     body = b""
     ln = "-"
-    if ctor == "new":
+    if ctor in ("new", "newch"):
         for _ in range(rng.below(6)):
             hs.append(pick_header(rng))
         body = b"x" * rng.choice([0, 1, 5, 100])
@@ -71,6 +71,8 @@ def one(rng):
     ops = []
     for _ in range(rng.below(9)):
         k = rng.below(10)
+        if ctor == "emptyc" and k >= 9:
+            k = 8            # (a clone is taken of Response<io::Empty>: no with_data before it)
         if k < 7:
             n, v = pick_header(rng)
             hs2 = (n, v)
@@ -81,13 +83,13 @@ def one(rng):
             ops.append("S%d" % st)
         elif k == 8:
             ops.append("T%d" % rng.choice([0, 1, 5, 32768]))
-            if rng.chance(1, 2):
+            if rng.chance(1, 2) and ctor != "emptyc":
                 ops.append("B")          # boxed() after the threshold was set
         else:
             d = b"y" * rng.choice([0, 3, 10])
             l = rng.choice(["-", str(len(d)), str(len(d))])
             ops.append("D%s:%s" % (hx(d), l))
-    if rng.chance(1, 6):
+    if rng.chance(1, 6) and ctor != "emptyc":
         ops.insert(rng.below(len(ops) + 1), "B")
     for n, v in hs:
         ln_ = n.lower()
@@ -98,7 +100,7 @@ def one(rng):
     head = 1 if mismatch else rng.below(2)
     up = hx("websocket") if rng.chance(1, 8) else "~"
     ver = rng.choice(["1.0", "1.1"])
-    ctor_hs = hdrs([h for h in hs[:len(hs) - sum(1 for o in ops if o[0] in "HA")]]) if ctor == "new" else "-"
+    ctor_hs = hdrs([h for h in hs[:len(hs) - sum(1 for o in ops if o[0] in "HA")]]) if ctor in ("new", "newch") else "-"
     line = "rp %s %d %s %s %s %s %s - %d %s %s" % (ctor, st, ctor_hs, hx(body), ln, ";".join(ops) if ops else "-", ver, head, up,
                                                   rng.choice(["-", "1", "7,3"]))
     return line, {"ctor": ctor, "n_headers": min(len(hs), 12), "special": special, "upgrade": up != "~", "head": head}
